@@ -763,6 +763,101 @@ Definition err_is (e target : option err) : bool :=
 Definition err_as (ty : string) (e : option err) : bool :=
   match e with Some x => err_has_typ ty x | None => false end.
 
+(* the error errors.As(err, &target) finds: the first one of the chain (the error itself, then what it
+   wraps, depth first in order) whose type is ty. Used when the target is looked at afterwards through
+   methods that are oracles over the found error. *)
+Fixpoint err_find_node (ty : string) (e : err) : option err :=
+  match e with
+  | Err t _ w =>
+      if String.eqb t ty then Some e
+      else (fix first (l : list err) : option err :=
+              match l with
+              | [] => None
+              | x :: r => match err_find_node ty x with Some y => Some y | None => first r end
+              end) w
+  end.
+Definition err_find (ty : string) (e : option err) : option err :=
+  match e with Some x => err_find_node ty x | None => None end.
+
+Lemma err_find_node_has_typ ty : forall e, is_some (err_find_node ty e) = err_has_typ ty e.
+Proof.
+  fix IH 1. intros [t f w]. cbn [err_find_node err_has_typ].
+  destruct (String.eqb t ty); [reflexivity|]. cbn [orb].
+  induction w as [|x r IHr]; [reflexivity|].
+  rewrite <- (IH x). destruct (err_find_node ty x); [reflexivity|]. exact IHr.
+Qed.
+
+Lemma err_find_as ty e : is_some (err_find ty e) = err_as ty e.
+Proof. destruct e; [apply err_find_node_has_typ|reflexivity]. Qed.
+
+(* ---------- fs.WalkDir / filepath.WalkDir (Go 1.23 io/fs/walk.go, path/filepath/path.go) ----------
+   What the walk sees of the file system is a tree supplied by an oracle: for every entry its path as
+   handed to the callback, its DirEntry, whether it is a directory, what ReadDir returned for it (the
+   entries, in order, and possibly an error). The callback threads a state S and may panic (None).
+   The protocol is the library's: the callback's result is compared by == with the sentinels
+   fs.SkipDir / fs.SkipAll (typ "fs.SkipDir" / "fs.SkipAll"). *)
+Inductive walk_tree (E : Type) : Type :=
+  WNode (name : string) (entry : E) (is_dir : bool) (read_err : option err) (children : list (walk_tree E)).
+Arguments WNode {E} name entry is_dir read_err children.
+
+Definition err_is_sentinel (name : string) (r : option err) : bool :=
+  match r with Some (Err t _ _) => String.eqb t name | None => false end.
+
+Section Walk.
+  Context {E S : Type}.
+  Variable fn : S -> string -> ptr E -> option err -> option (S * option err).
+
+  (* walkDir(name, d, fn) *)
+  Fixpoint walk_node (t : walk_tree E) (s : S) : option (S * option err) :=
+    match t with
+    | WNode name d isdir rerr kids =>
+        match fn s name (PNew d) None with
+        | None => None
+        | Some (s, r) =>
+            if is_some r || negb isdir then
+              Some (s, if err_is_sentinel "fs.SkipDir" r && isdir then None else r)
+            else
+              let after_read :=
+                match rerr with
+                | Some e =>
+                    match fn s name (PNew d) (Some e) with
+                    | None => None
+                    | Some (s, r2) => Some (s, r2)
+                    end
+                | None => Some (s, None)
+                end in
+              match after_read with
+              | None => None
+              | Some (s, Some e2) =>
+                  Some (s, if err_is_sentinel "fs.SkipDir" (Some e2) then None else Some e2)
+              | Some (s, None) =>
+                  (fix kids_loop (l : list (walk_tree E)) (s : S) : option (S * option err) :=
+                     match l with
+                     | [] => Some (s, None)
+                     | k :: l' =>
+                         match walk_node k s with
+                         | None => None
+                         | Some (s, None) => kids_loop l' s
+                         | Some (s, Some e) =>
+                             if err_is_sentinel "fs.SkipDir" (Some e) then Some (s, None) else Some (s, Some e)
+                         end
+                     end) kids s
+              end
+        end
+    end.
+
+  (* WalkDir(root, fn): top = what Stat / Lstat of the root gave: the tree, or an error *)
+  Definition walk_dir (root : string) (top : walk_tree E + err) (s : S) : option (S * option err) :=
+    match (match top with
+           | inl t => walk_node t s
+           | inr e => fn s root PNil (Some e)
+           end) with
+    | None => None
+    | Some (s, r) =>
+        Some (s, if err_is_sentinel "fs.SkipDir" r || err_is_sentinel "fs.SkipAll" r then None else r)
+    end.
+End Walk.
+
 (* errors.Join(errs...): nil when every error is nil *)
 Definition err_join (es : list (option err)) : option err :=
   match flat_map olist es with
